@@ -398,7 +398,7 @@ func runE2E(op string, rep *hx.Report) (lines, impl []string, skipped string) {
 			return &sniproxy.Dest{Name: "~", Home: true}, nil
 		case domain == "fwd.lan":
 			return &sniproxy.Dest{ForwardTCP: fwdLis.Addr().String()}, nil
-		case domain == "", net.ParseIP(domain) != nil, strings.HasSuffix(domain, ".speedy.red"), strings.HasSuffix(domain, ".after.blue"):
+		case domain == "", net.ParseIP(domain) != nil, strings.HasSuffix(domain, ".speedy.red"), strings.HasSuffix(domain, ".after.blue"), strings.HasSuffix(domain, ".iproxy.cloud"), strings.HasSuffix(domain, ".spothot.online"):
 			// a permissive lookup: only the proxy's own name policy keeps these away from endpoint a
 			return &sniproxy.Dest{Name: "epa"}, nil
 		}
@@ -437,7 +437,7 @@ func runE2E(op string, rep *hx.Report) (lines, impl []string, skipped string) {
 			}
 		}()
 	}
-	classes := []string{"a.test", "b.test", "c.test", "a.test", "b.test", "d.test", "x.unknown", "", "10.1.2.3", "fe80::1", "y.speedy.red", "z.after.blue", "home.lan", "fwd.lan", "aa.test.", "A.test", "suspended.test"}
+	classes := []string{"a.test", "b.test", "c.test", "a.test", "b.test", "d.test", "x.unknown", "", "10.1.2.3", "fe80::1", "y.speedy.red", "z.after.blue", "home.lan", "fwd.lan", "aa.test.", "A.test", "suspended.test", "a.b.speedy.red", "n1.eu.iproxy.cloud", "x.y.z.after.blue"}
 	if get("focus") != "" {
 		// many simultaneous connections for the same two endpoints: their dials overlap
 		classes = []string{"a.test", "a.test", "a.test", "b.test"}
@@ -713,7 +713,7 @@ func main() {
 			}
 			ops = append(ops, "office dump")
 		}
-		for _, n := range []string{"", "a", "a.test", "1.2.3.4", "::1", "fe80::1%eth0", "1.2.3", "x.speedy.red", "speedy.red", ".speedy.red", "x.after.blue", "iproxy.cloud.x", "X.SPEEDY.RED", "a.spothot.online", "256.1.1.1", "0x7f.1"} {
+		for _, n := range []string{"", "a", "a.test", "1.2.3.4", "::1", "fe80::1%eth0", "1.2.3", "x.speedy.red", "speedy.red", ".speedy.red", "x.after.blue", "iproxy.cloud.x", "X.SPEEDY.RED", "a.spothot.online", "256.1.1.1", "0x7f.1", "a.b.speedy.red", "n1.eu.iproxy.cloud", "x.y.z.after.blue", "a.b.c.d.spothot.online"} {
 			isip := "0"
 			if net.ParseIP(n) != nil {
 				isip = "1"
